@@ -21,7 +21,7 @@ Inductive tev :=
 | LPut (t : Z) (e : nat) (i : nat)
 | LGet (t : Z) (e : nat) (i : nat) (n : nat)
 | LDiscard (t : Z) (n : nat) (i : nat)
-| LRecv (t : Z) (n : nat) (i : nat)
+| LRecv (t : Z) (n : nat) (i : nat) (c : Z)          (* c: the creation stamp read by the sink *)
 | LPack (t : Z) (n : nat) (pallet : nat) (i : nat)   (* Pallet.add_item in a combiner *)
 | LSel (n : nat) (out : bool) (idx : nat)      (* a selection recorded by a node *)
 | LDraw (n : nat) (what : nat) (v : Z).        (* a value drawn from a delay / selector stream *)
